@@ -37,6 +37,7 @@ def plan(tier, seed):
         shards.append({'name': 'frames-%d' % i, 'fn': 'shard_frames', 'args': {'part': i, 'parts': k}})
     shards.append({'name': 'documented-names', 'fn': 'shard_documented', 'args': {}})
     shards.append({'name': 'default-size-batch', 'fn': 'shard_big_batch', 'args': {}})
+    shards.append({'name': 'identifier-like-target', 'fn': 'shard_idlike_target', 'args': {}})
     for i in range(1 if tier == 'quick' else 8):
         shards.append({'name': 'real-pool-%d' % i, 'fn': 'shard_real_pool', 'args': {'part': i}})
     return shards
@@ -239,6 +240,27 @@ def shard_big_batch(sh):
         if ok and captured:
             nt = check_batch(sh, heuristic, 'label', captured[-1][0], captured[-1][1], 'default-size-batch')
             sh.case((heuristic, 'big-batch'), nt, heuristic + '/default-size-batch', sample={'heuristic': heuristic, 'rows': n, 'cardinalities': {c: len(set(v)) for c, v in data.items()}})
+
+
+def shard_idlike_target(sh):
+    """A batch larger than 2^15 rows whose conditioning column is identifier-like (more than 2^15 distinct values, every row its own):
+    the numba heuristics must still be the documented scores (corrected: 0 for every feature; plain: the feature's entropy)."""
+    import pandas as pd
+    cr = pipe.fresh_core_ranking()
+    captured = []
+    install_hook(cr, captured)
+    nprng = sh.nprng('idlike')
+    for n in ((33000,) if sh.tier == 'quick' else (32768, 32769, 40000, 70000)):
+        data = {'f5': ['a%d' % v for v in nprng.integers(0, 5, n)], 'f200': ['b%d' % v for v in nprng.integers(0, 200, n)], 'const': ['x'] * n,
+                'uid': ['u%06d' % v for v in nprng.permutation(n)]}
+        df = pd.DataFrame(data, columns=list(data))
+        for heuristic in ('MI-numba-randomized', 'MI-numba-3mr'):
+            args = pipe.make_args(heuristic=heuristic, target_ranking_only='True', combination_number_upper_bound=10 ** 6, label_column='uid')
+            del captured[:]
+            ok, _ = sh.call('triplet=heuristic(codes)', 'mixed_rank_graph', cr.mixed_rank_graph, df, args, pipe.SyncPool(), pipe.NullPbar())
+            if ok and captured:
+                check_batch(sh, heuristic, 'uid', captured[-1][0], captured[-1][1], 'identifier-like-target')
+                sh.case((heuristic, 'idlike', n), True, heuristic + '/identifier-like-target', sample={'heuristic': heuristic, 'rows': n, 'distinct_target_values': n})
 
 
 def harvest_documented_heuristics():
